@@ -61,7 +61,7 @@ Proof.
 Qed.
 
 Lemma c03_support : forall fb, in_f1 fb = true -> GZ fb = zn (Design.Layout.variables_per_sample fb).
-Proof. intros fb HF1. unfold GZ, GN. now rewrite (Encode.LayoutF1.f1_vps fb HF1). Qed.
+Proof. intros fb HF1. unfold GZ. now rewrite (Encode.LayoutF1.f1_vps fb HF1). Qed.
 
 Lemma ex_stroop_facts :
   in_f1 ex_stroop = true /\ (0 < T ex_stroop)%nat /\
